@@ -88,13 +88,16 @@ def make_case(rng, gen, slot):
             vals[k] = rng.choice(VALUE_POOL)
     order_l = rng.choice([['id', 'm', 'a'], ['a', 'm', 'id'], ['m', 'id', 'a']])
     order_r = rng.choice([['id', 'm', 'a'], ['a', 'id', 'm']])
+    other = rng.random() < 0.35          # a second string column: the same objects filtered on it first
     def tab(keys, order, base):
         rows = []
+        order = order + (['m2'] if other else [])
         for j, k in enumerate(keys):
-            cells = {'id': k, 'm': vals[k], 'a': base + j}
+            cells = {'id': k, 'm': vals[k], 'a': base + j, 'm2': ['c', 'a b c', '', 'b'][(k + j) % 4]}
             rows.append([cells[c] for c in order])
         return {'cols': order, 'rows': rows, 'index': rng.choice([None, [9, 9], ['p', 'q'], [1, 0]]),
-                'strcols': ['m'], 'sdtype': rng.choice(['object', 'object', 'str', 'string'])}
+                'strcols': ['m'] + (['m2'] if other else []), 'sdtype': rng.choice(['object', 'object', 'str', 'string'])}
+    case['pre_attr'] = 'm2' if other else None
     lkeys, rkeys = [1, 2], [3, 4]
     if rng.random() < 0.5:
         lkeys, rkeys = [2, 1], [4, 3]
@@ -223,6 +226,14 @@ def run_case(item):
                 lv = {r['id']: r['m'] for r in ltable.to_dict('records')}
                 rv = {r['id']: r['m'] for r in rtable.to_dict('records')}
                 rec['fp'] = [int(bool(flt.filter_pair(lv[c[1]], rv[c[2]]))) for c in case['C']['rows']]
+                if case.get('pre_attr') and nj == case['n_jobs']:
+                    try:
+                        flt.filter_candset(cand, 'l_id', 'r_id', ltable, rtable, 'id', 'id', case['pre_attr'],
+                                           case['pre_attr'], n_jobs=1, show_progress=False)
+                    except Exception:
+                        pass
+                    if vh:
+                        vh.drain()
                 return flt.filter_candset(cand, 'l_id', 'r_id', ltable, rtable, 'id', 'id', 'm', 'm',
                                             n_jobs=nj, show_progress=False)
     try:
